@@ -196,6 +196,16 @@ func (s *V2Session) buildAndSend(ctx context.Context, c ipmi.Command) error {
 		if _, err := s.decode(response, &s.layers); err != nil {
 			return err
 		}
+		// the session layer only verifies the signature of packets that claim
+		// to have one, and does not know our session ID
+		if s.v2SessionLayer.ID != s.LocalID {
+			return fmt.Errorf("packet is for session %#x, ours is %#x",
+				s.v2SessionLayer.ID, s.LocalID)
+		}
+		if s.integrityAlgorithm != nil && !s.v2SessionLayer.Authenticated {
+			return fmt.Errorf("unauthenticated packet in a session with %v",
+				s.IntegrityAlgorithm)
+		}
 		types := layerexts.DecodedTypes(s.layers)
 		if err := types.InnermostEquals(ipmi.LayerTypeMessage); err != nil {
 			return err
